@@ -440,13 +440,19 @@ def write_replay(ctx, payload):
 def write_evidence(ctx, coverage, violations, assumptions):
     if getattr(ctx, "replay_path", None):
         return None
-    d = os.path.join(VERIF, "evidence")
+    # evidence under /verif/evidence describes /repo only; runs against scratch worktrees keep theirs apart
+    d = os.path.join(VERIF, "evidence") if ctx.key == "main" else os.path.join(ctx.bdir, "evidence")
     os.makedirs(d, exist_ok=True)
+    # a property with no closed theorem yet is reported at the level its check really has
+    level = "proof" if coverage.get("obligations", 0) > 0 else "exploration"
+    if level != "proof":
+        coverage = {k: v for k, v in coverage.items() if k not in ("obligations", "discharged")}
+        coverage["open_theorems_only"] = True
     ev = {
         "property_id": ctx.prop,
         "tier": ctx.tier,
         "seed": ctx.seed,
-        "level": "proof",
+        "level": level,
         "coverage": coverage,
         "assumptions": assumptions,
         "wall_s": round(time.time() - ctx.t0, 2),
